@@ -55,19 +55,33 @@ Definition values_under (norm : bytes -> bytes) (k : bytes) (hs : list header) :
 Definition some_nonempty (l : list bytes) : option (list bytes) :=
   match l with [] => None | _ => Some l end.
 
+Definition is_byte (c : N) : Prop := c < 256.
+
 (* assumed of base64 (connect.EncodeBinaryHeader / DecodeBinaryHeader) *)
 Definition b64_contract (enc : bytes -> bytes) (dec : bytes -> option bytes) : Prop :=
-  forall x, dec (enc x) = Some x.
+  forall x, Forall is_byte x -> dec (enc x) = Some x.
+
+(* the binary content a `-bin` header value stands for: its decoded form; a value that is
+   not base64 stands for itself ("if it's not encoded, then just add the raw value") *)
+Definition bin_meaning (dec : bytes -> option bytes) (v : bytes) : bytes :=
+  match dec v with Some d => d | None => v end.
+
+(* what must be read back for the values vs given under key k: for a `-bin` key the base64
+   text of each value's content - encoded once, not twice, not left decoded - else vs itself *)
+Definition once (enc : bytes -> bytes) (dec : bytes -> option bytes) (k : bytes) (vs : list bytes) : list bytes :=
+  if is_bin k then map (fun v => enc (bin_meaning dec v)) vs else vs.
 
 (* the header list is what a conversion from binary metadata produces: every value of a
    `-bin` header is the base64 text of some byte string *)
 Definition canonical_bin (enc : bytes -> bytes) (hs : list header) : Prop :=
-  forall h v, In h hs -> is_bin (lower (fst h)) = true -> In v (snd h) -> exists raw, v = enc raw.
+  forall h v, In h hs -> is_bin (lower (fst h)) = true -> In v (snd h) ->
+              exists raw, Forall is_byte raw /\ v = enc raw.
+
+Definition get_or_nil (o : option (list bytes)) : list bytes := match o with Some l => l | None => [] end.
 
 (* ---------------------------------------------------------------------- *)
 (* 3. Percent-encoding                                                     *)
 (* ---------------------------------------------------------------------- *)
-Definition is_byte (c : N) : Prop := c < 256.
 Definition printable_ascii (c : N) : Prop := 32 <= c <= 126.
 (* needs no escape: printable and not the escape character itself *)
 Definition safe_char (c : N) : Prop := printable_ascii c /\ c <> 37.
